@@ -27,7 +27,22 @@ PROBED_OK = {"div_2x1", "div_2x1_spec"}   # div_3x2_spec, nx1_3_norm_spec: > 300
 def harnesses():
     out = _all()
     keep = {"c14_reciprocal", "c14_reciprocal_extremes"} | {"c14_" + n for n in PROBED_OK}
-    return [h for h in out if h.name in keep]
+    return [h for h in out if h.name in keep] + const_divisors()
+
+
+# div_3x2 with a CONSTANT divisor and every numerator (probing): (name, d1, d0)
+CONST_D = [("2p127", 1 << 63, 0), ("2p127p1", 1 << 63, 1), ("max", (1 << 64) - 1, (1 << 64) - 1),
+           ("sqrt", 0x800000005a827999, 0xc000000000000000), ("mid", 0xc3a5c85c97cb3127, 0xb492b66fbe98f273)]
+
+
+def const_divisors():
+    out = []
+    for (nm, dh, dl) in CONST_D:
+        out.append(H("c14_div_3x2_const_%s" % nm, "C14", "c14::div_3x2_const::<%d,%d>" % (dh, dl), unwind=5, tier="thorough",
+                     timeout=3600, inst="div_3x2, d = 0x%016x_%016x" % (dh, dl), fns=["div_3x2", "reciprocal_2"], free_bits=192,
+                     role="c14::div_3x2_const", domain="CONSTANT normalised divisor, EVERY numerator: any quotient limb q and any "
+                     "remainder r < d, u = q*d + r built exactly, (q, r) demanded back", covers_required=["exact-multiple", "top-quotient"]))
+    return out
 
 
 def _all():
